@@ -175,6 +175,11 @@ def default_inputs(run, rng, focus):
     for a, b in ATTR_RENAME_STREAM:
         for o in ({'ignored_attrs': ['i']}, {'ignored_attrs': ['zz']}, {'ignored_attrs': ['i', '{urn:p}i'], 'fast_match': True}, {}):
             inputs.append((a, b, o))
+    # one prefix standing for different URIs in different document pairs, with the very same path strings (anything that
+    # remembers a resolved / compiled path across calls shows here)
+    if focus in ("C01", "C04", "C05"):
+        for a, b in NS_SEQUENCE:
+            inputs.append((a, b, {}))
     # the two roots bind ONE prefix to DIFFERENT URIs (Differ.diff refuses: RuntimeError, tolerated as documented);
     # if a script is handed out all the same it must be a correct one
     if focus in ("C01", "C04", "C05"):
@@ -265,6 +270,14 @@ ATTR_RENAME_STREAM = [
     ('<r><a i="1" j="5" k="5">t</a></r>', '<r><a i="1" m="5" n="5">t</a></r>'),
     ('<r xmlns:p="urn:p"><a p:i="1" j="5">t</a></r>', '<r xmlns:p="urn:p"><a p:i="2" p:k="5" i="5">t</a></r>'),
 ]
+NS_SEQUENCE = [
+    ('<r><k/></r>', '<r xmlns:p="urn:u1"><k/><p:n a="1"><p:m>t</p:m></p:n></r>'),
+    ('<r><k/></r>', '<r xmlns:p="urn:u2"><k/><p:n b="2"><p:m>u</p:m></p:n></r>'),
+    ('<r><k/></r>', '<r xmlns:p="urn:u1"><k/><p:n a="1"><p:m>t</p:m></p:n></r>'),
+    ('<r xmlns:p="urn:u1"><p:k>x</p:k></r>', '<r xmlns:p="urn:u1"><p:k>y</p:k><p:k2 c="3"/></r>'),
+    ('<r xmlns:p="urn:u2"><p:k>x</p:k></r>', '<r xmlns:p="urn:u2"><p:k>y</p:k><p:k2 c="3"/></r>'),
+    ('<r xmlns:p="urn:u1"><p:k>x</p:k></r>', '<r xmlns:p="urn:u1"><p:k>y</p:k><p:k2 c="3"/></r>'),
+]
 COMMENT_SHIFT = [
     ('<doc><!--c--><a/><b/></doc>', '<doc><a/><!--c--><b/></doc>'),
     ('<doc><a/><b/><!--c--></doc>', '<doc><!--c--><a/><b/></doc>'),
@@ -315,6 +328,8 @@ def evaluate(built, focus):
     for c in built:
         desc, raw, drun = c["desc"], c["raw"], c["run"]
         L, R = etree.fromstring(desc["left"]), etree.fromstring(desc["right"])
+        if desc["opts"].get("_embed"):
+            differ_corr.embed_pair(L, R, desc["left"])      # judged on what the differ was given
         opts = drun.opts
         ign = tuple(opts.get("ignored_attrs", []))
         found = []
